@@ -16,7 +16,7 @@ pub fn meta(m: &mut PropMeta) {
     m.explanation = "complete product of scope arrangements x reference spellings x positions x file orders against a reference resolver";
     m.quick_bound = "7^3 kind assignments x 3 levels x 9 positions x 12 spellings x 6 file orders (518,616 compilations); alias chains <= 4";
     m.thorough_bound = "same (the product is complete)";
-    m.quick_cap_s = 90.0;
+    m.quick_cap_s = 150.0;
 }
 
 const LEVELS: [&str; 3] = ["A", "A::B", "A::B::C"];
@@ -329,6 +329,66 @@ impl Family for KeywordNames {
     }
 }
 
+/// Module names that are textual prefixes of each other (Net, NetUtil, Net::NetUtil) and a nested module that repeats
+/// its parent's name (A, A::A): the search goes outwards module by module - a name is never matched against the TEXT
+/// of a scope.
+pub struct PrefixNamedModules;
+const PNM_LAYOUTS: [(&[&str; 3], &str, &[&str; 5]); 2] = [
+    (&["Net", "NetUtil", "Net::NetUtil"], "Net", &["NetUtil::S", "S", "::NetUtil::S", "Net::NetUtil::S", "::Net::S"]),
+    (&["A", "A::A", "A::A::A"], "A::A", &["A::S", "S", "::A::S", "A::A::S", "::A::A::A::S"]),
+];
+impl PrefixNamedModules {
+    fn build(idx: u64) -> (Program, String) {
+        let mut i = idx;
+        let order = (i % 6) as usize;
+        i /= 6;
+        let pos = i % N_POS;
+        i /= N_POS;
+        let sp = (i % 5) as usize;
+        i /= 5;
+        let present = i % 8; // which of the three modules define S
+        i /= 8;
+        let (mods, user_mod, spellings) = PNM_LAYOUTS[i as usize];
+        let mut files = vec![];
+        for (k, m) in mods.iter().enumerate() {
+            let mut f = MFile::module(m);
+            if present >> k & 1 == 1 {
+                // (an interface in the third module: base position and wrong-kind outcomes both occur)
+                f.defs.push(if k == 2 { iface("S", vec![], vec![]) } else { st("S", vec![]) });
+            }
+            f.defs.push(st(&format!("Filler{k}"), vec![]));
+            if *m == user_mod {
+                f.defs.push(user(pos, spellings[sp]));
+            }
+            files.push(f);
+        }
+        let program: Program = ORDERS[order].iter().map(|k| files[*k].clone()).collect();
+        (program, format!("modules {mods:?}, S defined in {:?}, reference {} from {user_mod}, position {pos}", (0..3).filter(|k| present >> k & 1 == 1).map(|k| mods[k]).collect::<Vec<_>>(), spellings[sp]))
+    }
+}
+impl Family for PrefixNamedModules {
+    fn name(&self) -> String {
+        "prefix-named-modules/2 layouts (Net, NetUtil, Net::NetUtil; A, A::A, A::A::A) x S defined in every subset of the three modules x 5 reference spellings x 9 positions x 6 file orders".into()
+    }
+    fn len(&self) -> u64 {
+        2 * 8 * 5 * N_POS * 6
+    }
+    fn describe(&self, idx: u64) -> Value {
+        let (p, what) = Self::build(idx);
+        let rendered = render_program(&p, &Layout::uniform(Sep::Space, Commas::None));
+        json!({"case": what, "files": rendered.iter().map(|r| r.text.clone()).collect::<Vec<_>>()})
+    }
+    fn run(&self, idx: u64) -> CaseOut {
+        let (p, what) = Self::build(idx);
+        let mut out = CaseOut::new(hash_str(&format!("c03pnm{what}{}", idx % 6)));
+        out.steps = 0;
+        out.validated = 1;
+        out.nontrivial = true;
+        out.class = check_program(&p, &Layout::uniform(Sep::Space, Commas::None), "prefix-named-modules", &mut out);
+        out
+    }
+}
+
 /// Alias chains with attributes.
 pub struct AliasChains;
 const ENDS: usize = 6;
@@ -560,5 +620,5 @@ impl Family for ModuleNamedLikeAnAlias {
 }
 
 pub fn families(_tier: &str) -> Vec<Box<dyn Family>> {
-    vec![Box::new(RelativeChains), Box::new(AliasChains), Box::new(ModuleNamedLikeAnAlias), Box::new(KeywordNames), Box::new(ScopeProduct)]
+    vec![Box::new(RelativeChains), Box::new(AliasChains), Box::new(ModuleNamedLikeAnAlias), Box::new(KeywordNames), Box::new(PrefixNamedModules), Box::new(ScopeProduct)]
 }
